@@ -23,6 +23,23 @@ use std::collections::{BTreeMap, BTreeSet};
 use std::panic::{catch_unwind, AssertUnwindSafe};
 
 pub const PORTS: [u16; 4] = [1234, 0xf012, 0xf0b7, 0xf0b0];
+/// PORTS plus both ends of the 4-bit range (0xf0b0, 0xf0bf), both ends of the 8-bit range
+/// (0xf000, 0xf0ff) and the values just outside (0xefff, 0xf100)
+pub const PORTS_EDGE: [u16; 9] = [1234, 0xf012, 0xf0b7, 0xf0b0, 0xf0bf, 0xf000, 0xf0ff, 0xefff, 0xf100];
+/// the canonical port pair of an NHC port mode (see `nhc_port_mode`)
+pub fn canonical_ports(sport: u16, dport: u16) -> (u16, u16) {
+    let b4 = |p: u16| (0xf0b0..=0xf0bf).contains(&p);
+    let b8 = |p: u16| (0xf000..=0xf0ff).contains(&p);
+    if b4(sport) && b4(dport) {
+        (0xf0b7, 0xf0b1)
+    } else if b8(sport) {
+        (0xf012, 1234)
+    } else if b8(dport) {
+        (1234, 0xf012)
+    } else {
+        (1234, 1234)
+    }
+}
 pub const HOP_LIMITS: [u8; 4] = [64, 1, 255, 7];
 
 pub fn max_ipv6_len() -> usize {
@@ -100,6 +117,9 @@ pub fn hdr_sizes(s_hw: HwKind, r_hw: HwKind, src: AddrClass, dst: AddrClass, spo
         AddrClass::McAllNodes | AddrClass::Mc8 => 1,
         AddrClass::Mc32 => 4,
         AddrClass::Mc48 | AddrClass::McSolicited => 6,
+        AddrClass::McK(k) if k >= 13 => 4,
+        AddrClass::McK(k) if k >= 11 => 6,
+        AddrClass::McK(_) => 16,
     };
     let hlb = if matches!(hl, 1 | 64 | 255) { 0 } else { 1 };
     let iphc = 2 + hlb + a(src) + a(dst);
@@ -252,6 +272,16 @@ impl Scn {
             s_extra,
             r_extra,
             r_any_ip: self.dst.needs_any_ip() || self.first.as_ref().is_some_and(|f| f.dst.needs_any_ip()),
+            r_join: {
+                let mut g = vec![];
+                for d in self.first.iter().map(|f| f.dst).chain([self.dst]) {
+                    let a = dst_addr(self.r_hw, d);
+                    if d.needs_join() && !g.contains(&a) {
+                        g.push(a);
+                    }
+                }
+                g
+            },
             fill: self.fill,
             proto: self.proto(),
             tcp_buf: 4096,
@@ -378,7 +408,12 @@ pub fn label_of(scn: &Scn, interrupted: bool) -> String {
         p.push(format!("hl={}", scn.hl));
     }
     if scn.proto() == Proto::Udp && (scn.sport, scn.dport) != (1234, 1234) {
-        p.push(format!("nhc-ports {}", nhc_port_mode(scn.sport, scn.dport)));
+        if canonical_ports(scn.sport, scn.dport) == (scn.sport, scn.dport) {
+            p.push(format!("nhc-ports {}", nhc_port_mode(scn.sport, scn.dport)));
+        } else {
+            // not reproducible with the canonical pair of the mode: the values matter
+            p.push(format!("nhc-ports {} {:#06x}->{:#06x}", nhc_port_mode(scn.sport, scn.dport), scn.sport, scn.dport));
+        }
     }
     if scn.part == "b2b" {
         p.push("two-datagrams-back-to-back".into());
@@ -397,7 +432,11 @@ pub fn label_of(scn: &Scn, interrupted: bool) -> String {
                 q.push(format!("hl={}", f.hl));
             }
             if (f.sport, f.dport) != (1234, 1234) {
-                q.push(format!("nhc-ports {}", nhc_port_mode(f.sport, f.dport)));
+                if canonical_ports(f.sport, f.dport) == (f.sport, f.dport) {
+                    q.push(format!("nhc-ports {}", nhc_port_mode(f.sport, f.dport)));
+                } else {
+                    q.push(format!("nhc-ports {} {:#06x}->{:#06x}", nhc_port_mode(f.sport, f.dport), f.sport, f.dport));
+                }
             }
             q.push(size_class(scn.s_hw, scn.r_hw, f).into());
             p.push(format!("after-a-datagram[{}]", q.join(",")));
@@ -1691,6 +1730,7 @@ pub fn run_mld(acc: &mut Acc) {
     let r = catch_unwind(AssertUnwindSafe(|| {
         let mut cfg = scn.world_cfg(Med::Lowpan);
         cfg.r_any_ip = false;
+        cfg.r_join.clear();
         let mut w = World::new(&cfg);
         w.r.iface.join_multicast_group(dst_addr(HwKind::Ext, AddrClass::Mc8)).map_err(|e| format!("{:?}", e))?;
         w.settle(20);
